@@ -89,3 +89,9 @@ impl Rng {
         (self.next() >> 11) as f64 / (1u64 << 53) as f64
     }
 }
+
+/// 2^53 and 2^40 as usize (truncated on 32-bit targets, where the monitors run under Miri).
+pub const P53: usize = (1u64 << 53) as usize;
+pub const P53_PLUS_1: usize = ((1u64 << 53) + 1) as usize;
+pub const P40: usize = (1u64 << 40) as usize;
+pub const P52: usize = (1u64 << 52) as usize;
